@@ -459,6 +459,8 @@ class Hist:
     def do(self, o):
         drv, st = self.drv, self.st
         k = o["op"]
+        if self.kind == "memory":       # no I/O, so nothing can be made to fail
+            k = {"savefault": "save", "loadfault": "load"}.get(k, k)
         obs = None
         try:
             if k in ("get", "scan", "update"):
@@ -498,7 +500,12 @@ class Hist:
                     # (reached only when save() did not raise: nothing to write, or the fault was swallowed)
                     obs = ("unit",)
                     if self.kind == "file" and flt.hit:
-                        self.err("C14:save:failure-swallowed", "save() returned normally although writing the file failed")
+                        # save() reported success although the write failed: then what is stored must be
+                        # what a fresh storage loads
+                        self.flags.add("save-fault-swallowed")
+                        if was_changed:
+                            self.insync = True
+                        self.judge_roundtrip()
                 else:
                     drv.run(st.save())
                     obs = ("unit",)
